@@ -18,6 +18,8 @@ RULE = ("generated well-formed file sets loaded through the public entry point (
         "CallGraph(trace).trace_data.get_trace(rank) with the model, and the local equations of the verified checker (C13_local_equations_sound) on the "
         "implementation's columns; non-trivial = a host event at depth >= 1 with num_kernels >= 2; distinct = hash of the file set")
 ASSUMPTIONS = ["host threads are properly nested without zero-duration events (C03 covers those)",
+               "a rank with two threads labelled main (profiler steps) or two labelled bwd (autograd) and no third: the code links the two, the property is silent; "
+               "only the checker's equations are demanded there, not the model's tree",
                "thread ids are non-zero for host threads that hold more than synchronisation records (a thread with tid 0 shares its root id with event 0)"]
 COLS = ["parent", "depth", "height", "num_kernels", "kernel_dur_sum", "first_kernel_start", "last_kernel_end", "kernel_span"]
 
@@ -143,6 +145,18 @@ def _has_zero_host(rows):
     return any(r["stream"] < 0 and r["dur"] == 0 and r["cat"] != "cuda_sync" for r in rows)
 
 
+def _unspecified_attachment(rows):
+    """the property fixes the attachment only for exactly one thread holding profiler steps plus exactly one autograd thread (and the
+    code attaches nothing unless exactly two threads are labelled main / bwd): two 'main' or two 'bwd' threads are linked by the code
+    in a way the property does not speak about -- there only the verified checker's equations are demanded"""
+    th = {}
+    for r in rows:
+        th.setdefault((r["pid"], r["tid"]), []).append(r["name"])
+    n_main = sum(1 for v in th.values() if any(n.startswith("ProfilerStep#") for n in v))
+    n_bwd = sum(1 for v in th.values() if not any(n.startswith("ProfilerStep#") for n in v) and any("autograd::" in n for n in v))
+    return n_main + n_bwd == 2 and (n_main, n_bwd) != (1, 1)
+
+
 def compare(case, impl, model):
     o = impl["out"]
     if "error" in o:
@@ -157,7 +171,7 @@ def compare(case, impl, model):
             disc.append(f"rank {r}: the verified checker (check_table, evaluated in Coq) rejects the implementation's stack columns")
         table = {x[0]: x[1:] for x in got}
         disc += [f"rank {r}: " + b for b in local_equations(rows, table)[:3]]
-        if [list(x) for x in m] != got:
+        if [list(x) for x in m] != got and not _unspecified_attachment(rows):
             mm = {x[0]: list(x[1:]) for x in m}
             diff = [(k, table.get(k), mm.get(k)) for k in sorted(set(table) | set(mm)) if table.get(k) != mm.get(k)][:3]
             disc.append(f"rank {r}: stack columns differ (idx, impl, model; columns {COLS}): {diff}")
@@ -187,7 +201,7 @@ def classify(case, impl, model, disc):
             return None
         got = {x[0]: x[1:] for x in o[r]}
         mm = {x[0]: list(x[1:]) for x in m}
-        diff = {k for k in set(got) | set(mm) if got.get(k) != mm.get(k)}
+        diff = {k for k in set(got) | set(mm) if got.get(k) != mm.get(k)} if not _unspecified_attachment(rows) else set()
         if diff and not t0:
             return None
         if not diff <= (t0 | {0}):
